@@ -58,14 +58,44 @@ func c01GenFault(t *rapid.T, w *world.World, op *world.Op, allowCrash bool) worl
 		return world.Fault{}
 	}
 	pos := rapid.IntRange(0, 999).Draw(t, "faultPos")
-	kn, wn, sn, en := w.Count(op)
-	n := map[string]int{"kube": kn, "wait": wn, "store": sn, "crash": en}[kind]
+	dry := w.DryCount(op)
+	n := map[string]int{"kube": dry.KubeN, "wait": dry.WaitN, "store": dry.StoreN, "crash": dry.ExtN}[kind]
 	if n == 0 {
 		return world.Fault{}
 	}
 	f := world.Fault{Kind: kind, K: pos * n / 1000}
 	if kind == "kube" {
 		f.Code = rapid.SampledFrom([]int{500, 500, 403, 409}).Draw(t, "faultCode")
+	}
+	if kind == "store" {
+		// Listed known findings are shallow (one particular storage write failing). Aim the fault at the other writes so
+		// that a known defect does not end every such history early and hide what lies behind it (construction, not
+		// rejection; the avoided positions are counted).
+		var writes []world.Event
+		for _, e := range dry.Events {
+			if e.StoreWrite() {
+				writes = append(writes, e)
+			}
+		}
+		var ok []int
+		for i, e := range writes {
+			sig := ""
+			switch {
+			case e.Verb == "Update" && e.Note == "superseded":
+				sig = "C01:I3-two-deployed/store-fault/store-Update(superseded)"
+			case e.Verb == "Update" && e.Note == "deployed" && op.Kind == "install":
+				sig = "C01:I4-success-but-created-revision-pending-install/store-fault/store-Update(deployed)"
+			}
+			if sig != "" && vt.IsKnown(sig) && rapid.IntRange(0, 9).Draw(t, "keepKnownTrigger") != 0 {
+				evid.Note("C01:generator-avoided-known-finding-trigger")
+				continue
+			}
+			ok = append(ok, i)
+		}
+		if len(ok) == 0 {
+			return world.Fault{}
+		}
+		f.K = ok[pos*len(ok)/1000]
 	}
 	return f
 }
